@@ -1031,3 +1031,11 @@ THEOREMS = THEOREMS + [P + t for t in [
     # LINEAR / TEXTTABLE DOPs: the model's conversion layer is state-free and fails only with library errors / unmodelled
     "dopP2I_plain", "dopI2P_plain", "CompuShape.spec_ok", "CompuShape.pdesc_okW", "CompuShape.ok_of_ttCheck", "CompuShape.ok_of_linCheck",
     "p2i_textTable_mem", "tMode_ok", "tTemp_ok", "tDesc_described"]]
+
+
+# --- W30 (terminated MIN-MAX-LENGTH leaves in the rejection tier: flag-indexed OkWM; Props/C04Nested2b.lean)
+LEAN_TARGETS = LEAN_TARGETS + ["OdxVerif.Props.C04Nested2b"]
+THEOREMS = THEOREMS + [P + t for t in [
+    "C04_nested2b", "C04_nested_accepts_iff2b", "encodeMessage_nested2b_cases", "DescribedP2b.okW", "PDesc.ofMinMaxMidBytes_okWM",
+    "PDesc.ofMinMaxMidBytes_fill_isSome", "DDesc.structM_okW", "MDescs.rejWM", "MDescs.fill_someM", "DComp.structOfM_ok",
+    "encodeMessage_structW_cases", "PDesc.OkW.toM", "MMShape.leaf_okMid", "MMShape.leaf_okFull", "wMs_described"]]
